@@ -289,6 +289,9 @@ func (in *Interp) verifCall(fn *ssa.Function, args []Value) Value {
 	case "verifNote":
 		in.ctx.ex.Notes[argName()]++
 		return nil
+	case "verifFill":
+		tag, _ := args[2].(Str).Concrete()
+		return BVConstI(64, int64(in.verifFill(args[0], int(concInt(args[1])), tag)))
 	case "verifIsReplay":
 		return tFalse
 	case "verifFmtExact":
